@@ -72,7 +72,10 @@ Build ==
     /\ ~fin /\ nid > 0
     /\ \E a \in {R(IF nid >= MaxOps THEN {"close"}
                    ELSE IF ~CanClose THEN {"leaf"}
-                   ELSE IF Len(path) < 2 /\ tree.op = "call" THEN {"leaf", "leaf2", "leaf3", "open", "open2", "close"}
+                   ELSE IF Len(path) < 2 /\ tree.op = "call" /\ NodeAt(tree, path).op = "call"
+                        THEN {"leaf", "leaf2", "leaf3", "open", "open2", "close"}
+                             \* CREATE inside the tree: by a contract (not a constructor), once per contract
+                             \cup (IF \A i \in 1..Len(NodeAt(tree, path).body) : NodeAt(tree, path).body[i].op # "create" THEN {"ncreate"} ELSE {})
                    ELSE {"leaf", "leaf2", "leaf3", "close"})} :
        \* a failing precompile call is mostly caught by the calling contract
        \E pm \in {R({"catch", "catch2", "catch3", "bubble"})} :
@@ -83,16 +86,19 @@ Build ==
        \E keep \in {R(1..3)} : \E ben \in {R({"T", "self", "S"})} :
          IF a \in {"leaf", "leaf2", "leaf3"}
          THEN /\ tree' = AppendAt(tree, path, o) /\ nid' = nid + 1 /\ UNCHANGED <<path, fin>>
-         ELSE IF a \in {"open", "open2"}
-         THEN /\ tree' = AppendAt(tree, path, CallC(nid, IF md = "bubble" THEN "bubble" ELSE "catch", IF cv = "400" THEN "400" ELSE Z, <<o2>>))
+         ELSE IF a \in {"open", "open2", "ncreate"}
+         THEN /\ tree' = AppendAt(tree, path, IF a = "ncreate"
+                                              THEN [Create(nid, IF cv = "400" THEN "400" ELSE Z, <<o2>>) EXCEPT !.mode = IF md = "bubble" THEN "bubble" ELSE "catch"]
+                                              ELSE CallC(nid, IF md = "bubble" THEN "bubble" ELSE "catch", IF cv = "400" THEN "400" ELSE Z, <<o2>>))
               /\ path' = Append(path, Len(NodeAt(tree, path).body) + 1)
               /\ nid' = nid + 2 /\ UNCHANGED fin
          ELSE \* close: normally, by REVERT, out of gas, or SELFDESTRUCT; a creation ends normally or reverts;
               \* the top frame mostly ends normally, so that most transactions succeed
               \E tt \in {IF path = <<>> /\ keep # 1 THEN <<>>
                          ELSE IF term \in {"rev", "rev2"} THEN <<Rev(nid)>>
-                         ELSE IF term = "inval" /\ path # <<>> THEN <<Inval(nid)>>
-                         ELSE IF term = "selfd" /\ tree.op = "call" THEN <<SelfD(nid, ben)>>
+                         \* (CREATE forwards all remaining gas: a constructor does not end in INVALID here)
+                         ELSE IF term = "inval" /\ path # <<>> /\ NodeAt(tree, path).op = "call" THEN <<Inval(nid)>>
+                         ELSE IF term = "selfd" /\ tree.op = "call" /\ NodeAt(tree, path).op = "call" THEN <<SelfD(nid, ben)>>
                          ELSE <<>>} :
                 /\ tree' = (IF tt = <<>> THEN tree ELSE AppendAt(tree, path, tt[1]))
                 /\ nid' = nid + 1
